@@ -3,10 +3,14 @@
    (b) len() of every RDATA equals the bytes write_to emits (the two are separate code);
    (c) the imperative compressed record writer (placeholder, seek back, patch, seek forward) refines the functional one on
        a growable seekable writer at any position over any pre-existing content.
-   PARTIAL: framing of the COMPRESSED output needs the compression theorem (C03, still open as a theorem); fixed-capacity
-   writers and third-party Write/Seek implementations are covered by the BUILDW slice only. Property theorems only. *)
+   (d) the COMPRESSED output is accepted by the same envelope reader, which finds the packet's questions and records in
+       order, each record's RDATA being what the RDATA parser yields on the message cut at the end of its RDLENGTH.
+   (e) over a fixed-capacity writer the record writer either does exactly what it does over a growable one or fails with
+       FailedToWrite - it never leaves a truncated record and reports success.
+   PARTIAL: third-party Write/Seek implementations, and the plumbing from Packet::write_* down to the record writer over
+   concrete std writers, are covered by the BUILDW slice only. Property theorems only. *)
 Require Import SD.Base SD.Codes SD.Header SD.HeaderProofs SD.Name SD.RData SD.RDataProofs SD.Packet SD.Walker SD.Framing SD.RoundTrip
-  SD.Writer SD.WriterProofs.
+  SD.Writer SD.WriterProofs SD.CompressFraming.
 
 Theorem C04_framed : forall p, wf_packet p ->
   exists w xs, walk (enc_packet p) = Some w /\ w_end w = len (enc_packet p) /\
@@ -17,6 +21,15 @@ Theorem C04_framed : forall p, wf_packet p ->
     Forall2 rr_matches xs (w_adds w).
 Proof. exact written_message_framed. Qed.
 Print Assumptions C04_framed.
+
+Theorem C04_framed_compressed : forall p, wf_packet p ->
+  exists w xs, walk (encc_packet p) = Some w /\ w_end w <= len (encc_packet p) /\
+    Forall2 q_matches (qs p) (w_qs w) /\ Forall2 (rr_framed (encc_packet p)) (ans p) (w_ans w) /\
+    Forall2 (rr_framed (encc_packet p)) (nss p) (w_nss w) /\ Forall2 (rr_framed (encc_packet p)) xs (w_adds w) /\
+    ((take_first_opt xs = None /\ adds p = xs /\ popt p = None) \/
+     (exists o, take_first_opt xs = Some (o, adds p) /\ popt p = optv_of (rdata_of o) /\ popt p <> None)).
+Proof. exact compressed_message_framed. Qed.
+Print Assumptions C04_framed_compressed.
 
 Theorem C04_rdlength : forall r, wf_rdata r -> len_rdata r = len (enc_rdata r).
 Proof. exact rdlength_is_written_length. Qed.
@@ -33,6 +46,12 @@ Print Assumptions C04_record_writer.
 Theorem C04_writes_compose : forall c a b, cpos c <= len (cbuf c) -> cwrite (cwrite c a) b = cwrite c (a ++ b).
 Proof. exact cwrite_cwrite. Qed.
 Print Assumptions C04_writes_compose.
+
+Theorem C04_fixed_capacity : forall cap c nameb commonb rdatab,
+  rr_write_imp_cap cap c nameb commonb rdatab =
+  if cpos c + len nameb + len commonb + 2 + len rdatab <=? cap then Ok (rr_write_imp c nameb commonb rdatab) else Err FailedToWrite.
+Proof. exact rr_write_cap_refines. Qed.
+Print Assumptions C04_fixed_capacity.
 
 (* finding F20a on the pinned writer: over pre-filled storage it does not refine the functional writer; the repaired one does *)
 Example C04_F20a :
